@@ -183,6 +183,17 @@ def shared_state():
                         for t in st.targets:
                             if isinstance(t, ast.Name) and not (t.id.startswith('__') and t.id.endswith('__')):
                                 found.add('%s:classattr:%s.%s' % (short, cls.name, t.id))
+        # a module-level iterator / generator is state by nature: every use advances it
+        for node in tree.body:
+            if isinstance(node, ast.Assign):
+                v = node.value
+                is_iter = isinstance(v, ast.GeneratorExp) or (
+                    isinstance(v, ast.Call) and (getattr(v.func, 'id', None) or getattr(v.func, 'attr', None)) in
+                    ('iter', 'cycle', 'count', 'repeat', 'zip', 'map', 'filter', 'enumerate', 'chain', 'islice', 'reversed'))
+                if is_iter:
+                    for t in node.targets:
+                        if isinstance(t, ast.Name):
+                            found.add('%s:iterator:%s' % (short, t.id))
         # module-level singledispatch objects (pretty_dispatch = singledispatch(...)) are registries
         for node in tree.body:
             if isinstance(node, ast.Assign) and isinstance(node.value, ast.Call):
